@@ -10,6 +10,10 @@ import numpy as np
 from ..core import CTX, attempt, held, violated, undefined, Result, short
 
 PROP = "C19"
+LEVEL_TEXT = 'Every case of the C01-C09 drivers and the C06 programs is executed under the 64-bit and the 32-bit index width in the same process; verdicts of the sub-property oracles and observed outcomes are compared. Exploration over configurations x inputs.'
+LEVEL_NOTE = "trusts numpy 2.x, CPython (copy.copy, slice semantics, big ints) and the reference model in rtmon/props/c19.py; decides the executions it produces, nothing more"
+TECHNIQUE = "runtime monitoring: differential execution under the two configurations, each judged by the sub-property's oracle"
+DESIGN_REF = "DESIGN.md sections 0, 5 (C19), 7"
 SUBS = ["c01", "c02", "c03", "c04", "c05", "c06", "c07", "c08", "c09"]
 RULE = ("case = (sub-property C01..C09 (+C06 programs), one of its cases); the case is run under both index widths and the outcomes are compared (and each is judged by the "
         "sub-property's oracle); distinct = hash of the case; non-trivial = the sub-case is non-trivial")
